@@ -70,13 +70,14 @@ def _uneven_points(rng: random.Random, n: int, smooth: bool = False) -> List[Lis
     return pts
 
 
-def _own_linear(pts):
-    """independent statement of the linear interpolant with chord-length parameters: (knots, point(t), total)"""
+def _own_linear(pts, equalize=True):
+    """independent statement of the linear interpolant: (knots, point(t), total);
+    chord-length parameters (equalize=True) or evenly spaced ones (equalize=False)"""
     seg = [_dist(a, b) for a, b in zip(pts[:-1], pts[1:])]
     total = sum(seg)
     knots = [0.0]
-    for s in seg:
-        knots.append(knots[-1] + s / total)
+    for i, s in enumerate(seg):
+        knots.append(knots[-1] + s / total if equalize else (i + 1) / len(seg))
     knots[-1] = 1.0
 
     def point(t):
@@ -86,6 +87,21 @@ def _own_linear(pts):
                 return _add(pts[i], _mul(lam, _sub(pts[i + 1], pts[i])))
 
     return knots, point, total
+
+
+def _own_arc(pts, equalize=True):
+    """length along the polyline from its start to the point at parameter t"""
+    knots, _, _ = _own_linear(pts, equalize)
+    seg = [_dist(a, b) for a, b in zip(pts[:-1], pts[1:])]
+
+    def arc(t):
+        done = 0.0
+        for i, s in enumerate(seg):
+            if t <= knots[i + 1] or i == len(seg) - 1:
+                return done + (t - knots[i]) / (knots[i + 1] - knots[i]) * s
+            done += s
+
+    return arc
 
 
 class C16(core.Check):
@@ -98,7 +114,9 @@ class C16(core.Check):
         "CircleCurve (away from the seam) and a helix with recorded parameter calls; edge: OnCurveEdge over every curve "
         "type with vertices on the curve, Spline/PolyLine edges; tf: linear/spline curves right after translate/rotate/scale/"
         "mirror/shear (method or transformation list), every question asked on a newly transformed curve; edge_hist: a curve edge "
-        "observed, its vertices moved along the curve, observed again; analytic curves also with bounds not starting at 0 and "
+        "observed, its vertices moved along the curve, observed again; seq: hairpin curves (analytic and spline), closest-parameter "
+        "queries alternating between the legs on one curve object, each compared with a fresh object and a 2001-point scan, and an "
+        "edge around the bend; linear curves also with equalize=False; analytic curves also with bounds not starting at 0 and "
         "parameters exactly 0 / exactly the bounds / equal; bad: parameters outside the bounds. Non-trivial = every "
         "case; distinct = different input."
     )
@@ -184,6 +202,7 @@ class C16(core.Check):
                     {
                         "kind": kind,
                         "points": pts,
+                        "equalize": (rng.random() < 0.5) if kind == "linear" else True,
                         "pairs": self._pairs(rng, 0.0, 1.0, 5),
                         "triples": self._triples(rng, 0.0, 1.0, 3),
                         "knot_split": rng.randrange(1, k - 1),
@@ -298,6 +317,44 @@ class C16(core.Check):
                     ],
                 }
             )
+        # query sequences on ONE curve object: a hairpin (two nearly parallel legs joined by a bend), queries alternate between
+        # the legs; every answer is compared with the answer of a fresh curve object and with a dense scan
+        for _ in range(max(6, n // 3)):
+            e1 = self._unit(rng)
+            t_ = self._unit(rng)
+            dot = sum(a * b for a, b in zip(e1, t_))
+            e2 = _sub(t_, _mul(dot, e1))
+            ne = math.sqrt(sum(x * x for x in e2))
+            if ne < 0.2:
+                continue
+            e2 = _mul(1 / ne, e2)
+            sc_ = 10 ** rng.uniform(-0.5, 0.5)
+            B = rng.uniform(2.5, 2.9)
+            c = {
+                "kind": "seq",
+                "curve": rng.choice(["hairpin", "hairpin_spline"]),
+                "a": rng.uniform(6, 14) * sc_,
+                "b": rng.uniform(0.3, 0.8) * sc_,
+                "e1": e1,
+                "e2": e2,
+                "centre": [rng.uniform(-5, 5) for _ in range(3)],
+                "B": B,
+                "n_points": rng.randint(5, 15),
+            }
+            h = 2 * B / 14  # spacing of the 15 coarse samples of get_closest_param
+            ts = []
+            for _i in range(rng.randint(2, 3)):
+                k = rng.choice([kk for kk in range(15) if 0.8 < -B + h * (kk + 0.5) < 2.3])
+                ts.append(-B + h * (k + 0.5 + rng.uniform(-0.12, 0.12)))
+            seq = []
+            for t in ts:
+                seq += [t, -t]
+            if rng.random() < 0.5:
+                seq.append(ts[0])
+            c["seq"] = seq
+            c["off"] = [[rng.uniform(-0.01, 0.01) * sc_ for _ in range(3)] for _ in seq]
+            c["edge_t"] = rng.choice(ts)
+            cases.append(c)
         # edge histories: observe, move the vertices along the curve (as optimizer clamps do), observe again
         for _ in range(n):
             which = rng.choice(["linear", "spline", "circle", "line", "helix"])
@@ -357,13 +414,23 @@ class C16(core.Check):
         if which in ("discrete", "splinedata", "polylinedata"):
             return cb.DiscreteCurve(case["points"])
         if which == "linear":
-            return cb.LinearInterpolatedCurve(case["points"])
+            return cb.LinearInterpolatedCurve(case["points"], equalize=case.get("equalize", True))
         if which == "spline":
             return cb.SplineInterpolatedCurve(case["points"])
         if which == "line":
             return cb.LineCurve(case["p1"], case["p2"], tuple(case.get("bounds", (0, 1))))
         if which == "circle":
             return cb.CircleCurve(case["origin"], case["rim"], case["normal"], tuple(case.get("bounds", (0, 2 * math.pi))))
+        if which in ("hairpin", "hairpin_spline"):
+            a, b, e1, e2, ctr, B = case["a"], case["b"], case["e1"], case["e2"], case["centre"], case["B"]
+
+            def hp(t):
+                return np.array(ctr) + a * math.cos(t) * np.array(e1) + b * math.sin(t) * np.array(e2)
+
+            if which == "hairpin":
+                return cb.AnalyticCurve(hp, (-B, B))
+            us = [-1 + 2 * i / 40 for i in range(41)]
+            return cb.SplineInterpolatedCurve([hp(B * math.copysign(abs(u) ** 1.3, u)) for u in us])
         if which == "helix":
             r, h = case["r"], case["h"]
 
@@ -427,6 +494,8 @@ class C16(core.Check):
                 out["expected_len"] = float(curve.get_length(case["t"][0], case["t"][1]))
             return out
 
+        if kind == "seq":
+            return self._run_seq(case)
         if kind == "tf":
             return self._run_tf(case)
         if kind == "edge_hist":
@@ -552,6 +621,51 @@ class C16(core.Check):
             out["queries"].append({"p": p, "t": t, "d": _dist(fl(c.get_point(t)), p), "scan_min": min(_dist(x, p) for x in scan)})
         return out
 
+    def _run_seq(self, case: dict) -> Any:
+        from classy_blocks.construct import edges
+        from classy_blocks.items.edges.factory import factory
+        from classy_blocks.items.vertex import Vertex
+
+        fl = lambda p: [float(x) for x in p]
+        a, b, e1, e2, ctr = case["a"], case["b"], case["e1"], case["e2"], case["centre"]
+        hp = lambda t: _add(ctr, _add(_mul(a * math.cos(t), e1), _mul(b * math.sin(t), e2)))
+        shared = self._curve(case)
+        lo, hi = shared.bounds
+        scan = [fl(p) for p in self._curve(case).discretize(lo, hi, 2001)]
+        out: dict = {"queries": []}
+        for t, off in zip(case["seq"], case["off"]):
+            q = _add(hp(t), off)
+            ts = float(shared.get_closest_param(q))
+            fresh = self._curve(case)
+            tf = float(fresh.get_closest_param(q))
+            out["queries"].append(
+                {
+                    "p": q,
+                    "t": ts,
+                    "d": _dist(fl(shared.get_point(ts)), q),
+                    "t_fresh": tf,
+                    "d_fresh": _dist(fl(fresh.get_point(tf)), q),
+                    "scan_min": min(_dist(x, q) for x in scan),
+                }
+            )
+        # an edge around the bend between two vertices that face each other across the gap
+        t = case["edge_t"]
+        p1, p2 = hp(t), hp(-t)
+        curve = self._curve(case)
+        edge = factory.create(Vertex(p1, 0), Vertex(p2, 1), edges.OnCurve(curve, n_points=case["n_points"]))
+        pa = float(self._curve(case).get_closest_param(p1))
+        pb = float(self._curve(case).get_closest_param(p2))
+        ref = self._curve(case)
+        out["edge"] = {
+            "pts": [fl(p) for p in edge.point_array],
+            "length": float(edge.length),
+            "params": [float(edge.param_start), float(edge.param_end)],
+            "expected_params": [pa, pb],
+            "expected_pts": [fl(p) for p in ref.discretize(pa, pb, case["n_points"] + 2)][1:-1],
+            "expected_len": float(ref.get_length(pa, pb)),
+        }
+        return out
+
     def _run_edge_hist(self, case: dict) -> Any:
         from classy_blocks.construct import edges
         from classy_blocks.items.edges.factory import factory
@@ -594,11 +708,12 @@ class C16(core.Check):
             for q in case["queries"]:
                 reqs.append(f"c16.dclosest {_vecs(case['points'])} {_vec(q['p'])}")
         elif kind == "linear":
+            e = "" if case.get("equalize", True) else "E"  # evenly spaced knots in the model for equalize=False
             for a, b in case["pairs"]:
-                reqs.append(f"c16.ilen {_vecs(case['points'])} {core.rat(a)} {core.rat(b)} {eps}")
-                reqs.append(f"c16.ipoint {_vecs(case['points'])} {core.rat(a)} {eps}")
+                reqs.append(f"c16.ilen{e} {_vecs(case['points'])} {core.rat(a)} {core.rat(b)} {eps}")
+                reqs.append(f"c16.ipoint{e} {_vecs(case['points'])} {core.rat(a)} {eps}")
             for q in case["queries"]:
-                reqs.append(f"c16.lclosest {_vecs(case['points'])} {_vec(q['p'])} {eps}")
+                reqs.append(f"c16.lclosest{e} {_vecs(case['points'])} {_vec(q['p'])} {eps}")
         elif kind == "analytic" and case["curve"] == "helix":
             for (a, b), o in zip(case["pairs"], impl["pairs"]):
                 reqs.append(f"c16.linspace {core.rat(a)} {core.rat(b)} {case['count']}")
@@ -730,6 +845,37 @@ class C16(core.Check):
             case.get("curve", kind), "AnalyticCurve"
         )
 
+        if kind == "seq":
+            name = "AnalyticCurve" if case["curve"] == "hairpin" else "SplineInterpolatedCurve"
+            sc = max(1.0, case["a"], max(abs(x) for x in case["centre"]))
+            tol = TOL_MIN * sc * 10
+            for i, q in enumerate(impl["queries"]):
+                # only what the call history spoils is reported here: a fresh curve object answers the same query better
+                if not q["d"] <= q["scan_min"] + tol and not q["d"] <= q["d_fresh"] + tol:
+                    bad(
+                        f"{name}.get_closest_param:depends-on-previous-queries",
+                        f"query {i} of a sequence on one curve object: parameter {q['t']} is {q['d']} away; a fresh curve object "
+                        f"answers {q['t_fresh']} ({q['d_fresh']} away), a dense scan finds {q['scan_min']}",
+                        q["d"],
+                        q["scan_min"],
+                    )
+            e = impl["edge"]
+            if len(e["pts"]) != len(e["expected_pts"]) or any(not _dist(p, q) <= tol for p, q in zip(e["pts"], e["expected_pts"])):
+                bad(
+                    f"OnCurveEdge.point_array:{case['curve']}:around-the-bend",
+                    f"written points are not the curve between the parameters {e['expected_params']} of the two vertices "
+                    f"(the edge used {e['params']})",
+                    e["pts"],
+                    e["expected_pts"],
+                )
+            if not abs(e["length"] - e["expected_len"]) <= 1e-5 * max(1.0, e["expected_len"]) + tol:
+                bad(
+                    f"OnCurveEdge.length:{case['curve']}:around-the-bend",
+                    f"length {e['length']}, curve length between the vertices' parameters {e['expected_len']}",
+                    e["length"],
+                    e["expected_len"],
+                )
+            return out
         if kind == "tf":
             moved = impl["moved"]
             sc = _scale(moved)
@@ -860,7 +1006,14 @@ class C16(core.Check):
         pts = case.get("points")
         sc = _scale(pts) if pts else _scale([v for v in (case.get("p1"), case.get("p2"), case.get("origin"), [case.get("r", 1)]) if isinstance(v, list)])
         tol = TOL * sc * 10
-        own = _own_linear(pts) if kind == "linear" else None
+        own = _own_linear(pts, case.get("equalize", True)) if kind == "linear" else None
+        arc = _own_arc(pts, case.get("equalize", True)) if kind == "linear" else None
+        if kind == "linear":
+            if len(impl["knots"]) != len(own[0]) or not max(abs(x - y) for x, y in zip(impl["knots"], own[0])) <= 1e-9:
+                bad(
+                    "InterpolatorBase.params" + ("" if case.get("equalize", True) else ":equalize-false"),
+                    f"parameters {impl['knots']}, expected {own[0]}",
+                )
         for (a, b), o in zip(case["pairs"], impl["pairs"]):
             if not (_dist(o["first"], o["pa"]) <= tol and _dist(o["last"], o["pb"]) <= tol):
                 bad(f"{cname}.discretize:ends", f"discretize({a}, {b}) runs {o['first']} … {o['last']}, curve points {o['pa']}, {o['pb']}")
@@ -877,10 +1030,10 @@ class C16(core.Check):
                 if not abs(o["len"] - exp) <= tol:
                     bad("DiscreteCurve.get_length:polyline", f"get_length({a}, {b}) = {o['len']}, polyline {exp}", o["len"], exp)
             if kind == "linear":
-                exp = abs(b - a) * own[2]
+                exp = abs(arc(b) - arc(a))  # = |b - a| * total for chord-length parameters
                 if not abs(o["len"] - exp) <= tol:
                     bad(
-                        "LinearInterpolatedCurve.get_length:polyline",
+                        "LinearInterpolatedCurve.get_length:polyline" + ("" if case.get("equalize", True) else ":equalize-false"),
                         f"get_length({a}, {b}) = {o['len']}, polyline between the parameters {exp}",
                         o["len"],
                         exp,
@@ -936,9 +1089,11 @@ class C16(core.Check):
 
     def classify(self, case, impl):
         k = case["kind"]
+        if k == "linear":
+            return "linear" if case.get("equalize", True) else "linear:equalize-false"
         if k == "tf":
             return "tf:" + case["curve"] + ":" + "+".join(sorted({o[0] for o in case["ops"]})) + ":" + case["mode"]
-        if k in ("analytic", "edge", "bad", "edge_hist"):
+        if k in ("analytic", "edge", "bad", "edge_hist", "seq"):
             return f"{k}:{case['curve']}"
         return k
 
